@@ -1,5 +1,5 @@
 (* The functions of encoding.go inside the linked program [src_pure]: each
-   [call src_pure fuel name args] is the run of the generated function in the
+   [call_with src_pure base fuel name args] is the run of the generated function in the
    environment of the functions listed before it, whose behaviour is given by
    the lemmas already proved for them. *)
 From Coq Require Import List NArith String Lia Bool.
@@ -9,43 +9,43 @@ From Modbus Require Import Proofs.GoLiteP Proofs.GoLiteLinkP Proofs.SrcCrcP Proo
 Open Scope N_scope.
 Open Scope string_scope.
 
-Lemma src_uint32ToBytes_ok fuel e w v :
-  call src_pure fuel "uint32ToBytes" [VN (endian_sel e); VN (word_sel w); VN v] =
+Lemma src_uint32ToBytes_ok base fuel e w v :
+  call_with src_pure base fuel "uint32ToBytes" [VN (endian_sel e); VN (word_sel w); VN v] =
   Ok [vbytes (u32_to_bytes e w v)].
 Proof. link_step "uint32ToBytes" src_fn_uint32ToBytes. apply run_uint32ToBytes. Qed.
 
-Lemma src_uint64ToBytes_ok fuel e w v :
-  call src_pure fuel "uint64ToBytes" [VN (endian_sel e); VN (word_sel w); VN v] =
+Lemma src_uint64ToBytes_ok base fuel e w v :
+  call_with src_pure base fuel "uint64ToBytes" [VN (endian_sel e); VN (word_sel w); VN v] =
   Ok [vbytes (u64_to_bytes e w v)].
 Proof. link_step "uint64ToBytes" src_fn_uint64ToBytes. apply run_uint64ToBytes. Qed.
 
-Lemma src_float32ToBytes_ok fuel e w v :
-  call src_pure fuel "float32ToBytes" [VN (endian_sel e); VN (word_sel w); VN v] =
+Lemma src_float32ToBytes_ok base fuel e w v :
+  call_with src_pure base fuel "float32ToBytes" [VN (endian_sel e); VN (word_sel w); VN v] =
   Ok [vbytes (u32_to_bytes e w v)].
 Proof.
   link_step "float32ToBytes" src_fn_float32ToBytes. apply run_float32ToBytes.
   intros e' w' v'. callee "float32ToBytes" "uint32ToBytes" src_fn_uint32ToBytes. apply src_uint32ToBytes_ok.
 Qed.
 
-Lemma src_float64ToBytes_ok fuel e w v :
-  call src_pure fuel "float64ToBytes" [VN (endian_sel e); VN (word_sel w); VN v] =
+Lemma src_float64ToBytes_ok base fuel e w v :
+  call_with src_pure base fuel "float64ToBytes" [VN (endian_sel e); VN (word_sel w); VN v] =
   Ok [vbytes (u64_to_bytes e w v)].
 Proof.
   link_step "float64ToBytes" src_fn_float64ToBytes. apply run_float64ToBytes.
   intros e' w' v'. callee "float64ToBytes" "uint64ToBytes" src_fn_uint64ToBytes. apply src_uint64ToBytes_ok.
 Qed.
 
-Lemma src_uint16sToBytes_ok fuel e vs :
+Lemma src_uint16sToBytes_ok base fuel e vs :
   N.of_nat (List.length vs) < 2 ^ 62 ->
-  call src_pure fuel "uint16sToBytes" [VN (endian_sel e); vbytes vs] = Ok [vbytes (u16s_to_bytes e vs)].
+  call_with src_pure base fuel "uint16sToBytes" [VN (endian_sel e); vbytes vs] = Ok [vbytes (u16s_to_bytes e vs)].
 Proof.
   intros H. link_step "uint16sToBytes" src_fn_uint16sToBytes. apply run_uint16sToBytes; [|exact H].
   intros e' v'. callee "uint16sToBytes" "uint16ToBytes" src_fn_uint16ToBytes. apply src_uint16ToBytes_ok.
 Qed.
 
-Lemma src_bytesToUint16s_ok fuel e l :
+Lemma src_bytesToUint16s_ok base fuel e l :
   N.of_nat (List.length l) < 2 ^ 62 -> (List.length l < fuel)%nat ->
-  call src_pure fuel "bytesToUint16s" [VN (endian_sel e); vbytes l] =
+  call_with src_pure base fuel "bytesToUint16s" [VN (endian_sel e); vbytes l] =
   match bytes_to_u16s e l with Some r => Ok [vbytes r] | None => Panic end.
 Proof.
   intros H1 H2. link_step "bytesToUint16s" src_fn_bytesToUint16s.
@@ -53,27 +53,27 @@ Proof.
   intros l'. callee "bytesToUint16s" "bytesToUint16" src_fn_bytesToUint16. apply src_bytesToUint16_ok.
 Qed.
 
-Lemma src_bytesToUint32s_ok fuel e w l :
+Lemma src_bytesToUint32s_ok base fuel e w l :
   N.of_nat (List.length l) < 2 ^ 62 -> (List.length l < fuel)%nat ->
-  call src_pure fuel "bytesToUint32s" [VN (endian_sel e); VN (word_sel w); vbytes l] =
+  call_with src_pure base fuel "bytesToUint32s" [VN (endian_sel e); VN (word_sel w); vbytes l] =
   match bytes_to_u32s e w l with Some r => Ok [vbytes r] | None => Panic end.
 Proof.
   intros H1 H2. link_step "bytesToUint32s" src_fn_bytesToUint32s.
   apply run_bytesToUint32s; assumption.
 Qed.
 
-Lemma src_bytesToUint64s_ok fuel e w l :
+Lemma src_bytesToUint64s_ok base fuel e w l :
   N.of_nat (List.length l) < 2 ^ 62 -> (List.length l < fuel)%nat ->
-  call src_pure fuel "bytesToUint64s" [VN (endian_sel e); VN (word_sel w); vbytes l] =
+  call_with src_pure base fuel "bytesToUint64s" [VN (endian_sel e); VN (word_sel w); vbytes l] =
   match bytes_to_u64s e w l with Some r => Ok [vbytes r] | None => Panic end.
 Proof.
   intros H1 H2. link_step "bytesToUint64s" src_fn_bytesToUint64s.
   apply run_bytesToUint64s; assumption.
 Qed.
 
-Lemma src_bytesToFloat32s_ok fuel e w l :
+Lemma src_bytesToFloat32s_ok base fuel e w l :
   N.of_nat (List.length l) < 2 ^ 62 -> (List.length l < fuel)%nat ->
-  call src_pure fuel "bytesToFloat32s" [VN (endian_sel e); VN (word_sel w); vbytes l] =
+  call_with src_pure base fuel "bytesToFloat32s" [VN (endian_sel e); VN (word_sel w); vbytes l] =
   match bytes_to_u32s e w l with Some r => Ok [vbytes r] | None => Panic end.
 Proof.
   intros H1 H2. link_step "bytesToFloat32s" src_fn_bytesToFloat32s.
@@ -81,9 +81,9 @@ Proof.
   callee "bytesToFloat32s" "bytesToUint32s" src_fn_bytesToUint32s. apply src_bytesToUint32s_ok; assumption.
 Qed.
 
-Lemma src_bytesToFloat64s_ok fuel e w l :
+Lemma src_bytesToFloat64s_ok base fuel e w l :
   N.of_nat (List.length l) < 2 ^ 62 -> (List.length l < fuel)%nat ->
-  call src_pure fuel "bytesToFloat64s" [VN (endian_sel e); VN (word_sel w); vbytes l] =
+  call_with src_pure base fuel "bytesToFloat64s" [VN (endian_sel e); VN (word_sel w); vbytes l] =
   match bytes_to_u64s e w l with Some r => Ok [vbytes r] | None => Panic end.
 Proof.
   intros H1 H2. link_step "bytesToFloat64s" src_fn_bytesToFloat64s.
@@ -91,16 +91,16 @@ Proof.
   callee "bytesToFloat64s" "bytesToUint64s" src_fn_bytesToUint64s. apply src_bytesToUint64s_ok; assumption.
 Qed.
 
-Lemma src_encodeBools_ok fuel l :
+Lemma src_encodeBools_ok base fuel l :
   N.of_nat (List.length l) < 2 ^ 62 -> (List.length l < fuel)%nat ->
-  call src_pure fuel "encodeBools" [vbools l] = Ok [vbytes (encode_bools l)].
+  call_with src_pure base fuel "encodeBools" [vbools l] = Ok [vbytes (encode_bools l)].
 Proof.
   intros H1 H2. link_step "encodeBools" src_fn_encodeBools. apply run_encodeBools; assumption.
 Qed.
 
-Lemma src_decodeBools_ok fuel q bs :
+Lemma src_decodeBools_ok base fuel q bs :
   q < 65536 -> (N.to_nat q < fuel)%nat -> bytesb bs = true ->
-  call src_pure fuel "decodeBools" [VN q; vbytes bs] =
+  call_with src_pure base fuel "decodeBools" [VN q; vbytes bs] =
   match decode_bools (N.to_nat q) bs with Some r => Ok [vbools r] | None => Panic end.
 Proof.
   intros H1 H2 H3. link_step "decodeBools" src_fn_decodeBools. apply run_decodeBools; assumption.
